@@ -49,6 +49,7 @@ pub const METHOD: Method = Method {
 
 impl Request {
     pub const _ERROR_UNABLE_TO_PARSE_METHOD_AND_REQUEST_URI_AND_HTTP_VERSION: &'static str = "Unable to parse method, request uri and http version";
+    pub const _ERROR_REQUEST_URI_IS_NOT_IN_ORIGIN_FORM: &'static str = "Request uri is expected to start with a slash, a question mark or a number sign";
 
     pub fn get_header(&self, name: String) -> Option<&Header> {
         let header =  self.headers.iter().find(|x| x.name.to_lowercase() == name.to_lowercase());
@@ -108,6 +109,10 @@ impl Request {
     pub fn get_uri_query(&self) -> Result<Option<HashMap<String, String>>, String> {
         // it will return an error if unable to parse url
         // it will return None if there are no query params
+        if !Request::is_request_uri_safe_to_append_to_authority(&self.request_uri) {
+            return Err(Request::_ERROR_REQUEST_URI_IS_NOT_IN_ORIGIN_FORM.to_string())
+        }
+
         // scheme and host required for the parse_url function
         let url_array = ["http://", "localhost/", &self.request_uri];
         let url = url_array.join(SYMBOL.empty_string);
@@ -120,11 +125,23 @@ impl Request {
         Ok(boxed_url_components.unwrap().query)
     }
 
+    // the request uri is glued to a placeholder scheme and host before it is handed to the url parser,
+    // it has to start a path, a query or a fragment, otherwise it would be read as a part of the authority
+    fn is_request_uri_safe_to_append_to_authority(request_uri: &str) -> bool {
+        request_uri.starts_with(SYMBOL.slash)
+            || request_uri.starts_with(SYMBOL.question_mark)
+            || request_uri.starts_with(SYMBOL.number_sign)
+    }
+
     pub fn get_path(&self) -> Result<String, String> {
         self.get_uri_path()
     }
 
     pub fn get_uri_path(&self) -> Result<String, String> {
+        if !Request::is_request_uri_safe_to_append_to_authority(&self.request_uri) {
+            return Err(Request::_ERROR_REQUEST_URI_IS_NOT_IN_ORIGIN_FORM.to_string())
+        }
+
         // scheme and host required for the parse_url function
         let url_array = ["http://", "localhost", &self.request_uri];
         let url = url_array.join(SYMBOL.empty_string);
